@@ -131,13 +131,13 @@ impl Timer {
 //@ entry
         proof { broadcast use axiom_instant_cmp; }
 //@ enditem
-//@ item src/sources/timer.rs / impl EventSource for Timer / fn register props=C05
+//@ item src/sources/timer.rs / impl EventSource for Timer / fn register props=C05,C01,C12
 //@ spec
         ensures
             // the arming uses the first token of the factory
             final(self).reg_token() matches Some(t) ==> t.tok() == old(token_factory).next(),
 //@ enditem
-//@ item src/sources/timer.rs / impl EventSource for Timer / fn reregister props=C05
+//@ item src/sources/timer.rs / impl EventSource for Timer / fn reregister props=C05,C01,C12
 //@ spec
         ensures
             final(self).reg_token() matches Some(t) ==> t.tok() == old(token_factory).next(),
